@@ -140,4 +140,64 @@ def deregisterBroker (nSeeds : Int) (b : Int) (seed0 : Int) (seeds : Int) (seeds
     let brokers_v1 : Int := brokersMinus
     (seeds, dead, brokers_v1)
 
+/-- generated from client.go (*client).updateMetadata (fragment starting at `client.lock.Lock()`) -/
+def lockUpdateMetadata  : Unit :=
+  ()
+
+/-- generated from client.go (*client).updateMetadata (fragment starting at `defer client.lock.Unlock()`) -/
+def unlockUpdateMetadata  : Unit :=
+  ()
+
+-- fun lockCachedPartitions: NOT TRANSLATED: no statement starting with "client.lock.RLock()" in (*client).cachedPartitions
+
+-- fun unlockCachedPartitions: NOT TRANSLATED: no statement starting with "defer client.lock.RUnlock()" in (*client).cachedPartitions
+
+/-- generated from client.go (*client).cachedMetadata (fragment starting at `client.lock.RLock()`) -/
+def lockCachedMetadata  : Unit :=
+  ()
+
+/-- generated from client.go (*client).cachedMetadata (fragment starting at `defer client.lock.RUnlock()`) -/
+def unlockCachedMetadata  : Unit :=
+  ()
+
+/-- generated from client.go (*client).cachedLeader (fragment starting at `client.lock.RLock()`) -/
+def lockCachedLeader  : Unit :=
+  ()
+
+/-- generated from client.go (*client).cachedLeader (fragment starting at `defer client.lock.RUnlock()`) -/
+def unlockCachedLeader  : Unit :=
+  ()
+
+/-- generated from client.go (*client).Brokers (fragment starting at `client.lock.RLock()`) -/
+def lockBrokers  : Unit :=
+  ()
+
+/-- generated from client.go (*client).Brokers (fragment starting at `defer client.lock.RUnlock()`) -/
+def unlockBrokers  : Unit :=
+  ()
+
+/-- generated from client.go (*client).any (fragment starting at `client.lock.RLock()`) -/
+def lockAny  : Unit :=
+  ()
+
+/-- generated from client.go (*client).any (fragment starting at `defer client.lock.RUnlock()`) -/
+def unlockAny  : Unit :=
+  ()
+
+/-- generated from client.go (*client).deregisterBroker (fragment starting at `client.lock.Lock()`) -/
+def lockDeregisterBroker  : Unit :=
+  ()
+
+/-- generated from client.go (*client).deregisterBroker (fragment starting at `defer client.lock.Unlock()`) -/
+def unlockDeregisterBroker  : Unit :=
+  ()
+
+/-- generated from client.go (*client).resurrectDeadBrokers (fragment starting at `client.lock.Lock()`) -/
+def lockResurrectDeadBrokers  : Unit :=
+  ()
+
+/-- generated from client.go (*client).resurrectDeadBrokers (fragment starting at `defer client.lock.Unlock()`) -/
+def unlockResurrectDeadBrokers  : Unit :=
+  ()
+
 end Gen.C15
